@@ -120,12 +120,12 @@ pub fn gen_full(r: &mut Rng, o: &FullOpts) -> PDB {
                         let acc = if at_limit { "P12345" } else { *r.pick(&["P12345", "P12345", "A0A024R1", "A0A024R1R8", "Q9Y6K9-2XYZ0"]) };
                         let id = if at_limit { "TEST_HUMAN" } else if beyond && r.chance(1, 2) { "LONGNAME_OF_PROTEIN_X" } else { *r.pick(&["TEST_HUMAN", "TEST_HUMAN", "TESTAB_HUMAN", "TESTABC_HUMAN", "LONGNAME_OF_PROTEINX"]) };
                         let name = if beyond && r.chance(1, 2) { "UNIPROT" } else { *r.pick(&["UNP", "UNP", "GB", "PDB", "TREMBL"]) };
-                        let dlo = if at_limit { *r.pick(&[99_998isize, 99_999, 100_000]) - (hi - lo).max(0) * r.below(2) as isize } else if r.chance(1, 6) { *r.pick(&[99_990isize, 999_990]) + r.range(0, 20) as isize } else { 1 };
+                        let dlo = if at_limit { *r.pick(&[99_997isize, 99_998, 99_999, 100_000, 100_001]) } else if r.chance(1, 6) { *r.pick(&[99_990isize, 999_990]) + r.range(0, 20) as isize } else { 1 };
                         let long_form = acc.len() > 8 || id.len() > 12 || dlo > 99_999 - 40;
                         let ins = |r: &mut Rng| if r.chance(1, 6) { *r.pick(&['A', 'B', 'P']) } else { ' ' };
                         let (i1, i2) = (ins(r), ins(r));
                         let (i3, i4) = if long_form && !beyond { (' ', ' ') } else { (ins(r), ins(r)) };
-                        let mut d = DatabaseReference::new((name.to_string(), acc.to_string(), id.to_string()), SequencePosition::new(lo, i1, hi, i2), SequencePosition::new(dlo, i3, dlo + (hi - lo).max(0), i4));
+                        let mut d = DatabaseReference::new((name.to_string(), acc.to_string(), id.to_string()), SequencePosition::new(lo, i1, hi, i2), SequencePosition::new(dlo, i3, dlo + if at_limit { (hi - lo).max(0).min(r.below(3) as isize) } else { (hi - lo).max(0) }, i4));
                         if r.chance(1, 2) { d.differences.push(SequenceDifference::new(("MET".to_string(), lo, None), Some(("ALA".to_string(), 12)), "ENGINEERED MUTATION".to_string())); }
                         c.set_database_reference(d);
                     }
